@@ -1,6 +1,7 @@
 package storage
 
 import (
+	"math/big"
 	"encoding/json"
 	"fmt"
 	"strconv"
@@ -186,17 +187,35 @@ func c20MemoryScript(root *c20Root, path []string) (src string, m c20Model, exp 
 
 // decode an exported container into the model form; ok=false if an element is malformed
 func c20Decode(k c20Kind, v cadence.Value) (c20Model, string) {
+	bigID := func(b *big.Int) (int, bool) {
+		if b.IsInt64() {
+			return int(b.Int64()), true
+		}
+		d := new(big.Int).Sub(b, c20Huge)
+		if !d.IsInt64() {
+			return 0, false
+		}
+		return int(d.Int64()), true
+	}
 	elem := func(e cadence.Value) (int, bool) {
 		switch x := e.(type) {
 		case cadence.Int:
-			return x.Int(), true
+			return bigID(x.Big())
+		case cadence.UInt:
+			return bigID(x.Big())
+		case cadence.UInt64:
+			return int(x), true
 		case cadence.String:
 			s := string(x)
 			if !strings.HasSuffix(s, c20Fill) {
 				return 0, false
 			}
-			id, err := strconv.Atoi(strings.TrimSuffix(s, c20Fill))
-			return id, err == nil
+			// both fills are runs of 'x'; ids are decimal digits
+			id, err := strconv.Atoi(strings.TrimRight(s, "x"))
+			if err != nil || (len(s) != len(strconv.Itoa(id))+c20FillLen && len(s) != len(strconv.Itoa(id))+c20BigFillLen) {
+				return 0, false
+			}
+			return id, true
 		case cadence.Array:
 			if len(x.Values) != 2 {
 				return 0, false
@@ -399,6 +418,10 @@ func c20Kinds() []c20Kind {
 		{"array", "int"}, {"array", "str"}, {"array", "arr"},
 		{"dict", "int"}, {"dict", "str"}, {"dict", "arr"}, {"dict", "strkey"},
 		{"const", "int"}, {"const", "str"}, {"const", "arr"},
+		// every element too large to inline (single-slab containers of slab ids)
+		{"array", "bigint"}, {"array", "biguint"}, {"array", "bigstr"},
+		{"dict", "bigint"}, {"dict", "biguint"}, {"dict", "bigkey"},
+		{"const", "bigint"},
 	}
 }
 
